@@ -267,6 +267,7 @@ pub fn run_l(case: &LCase) -> (SimEnd, crate::sched::SimStats, LObs) {
                             srv_read_plan: lcn.srv_read_plan.clone(),
                             srv_write_plan: lcn.srv_write_plan.clone(),
                             cli_read_plan: vec![],
+                            cli_write_plan: vec![],
                             s2c_cap: lcn.s2c_cap,
                         });
                         // connection ids are dense and in connect order; keep the mapping explicit
